@@ -400,7 +400,7 @@ impl Property for C18 {
     fn runs(&self, tier: Tier) -> usize {
         match tier {
             Tier::Quick => 600,
-            Tier::Thorough => 40_000,
+            Tier::Thorough => 6_000,
         }
     }
 
